@@ -201,7 +201,32 @@ fn evaluate_source(
     Ok(())
 }
 
-fn main() -> ! {
+/// Stack size of the thread the interpreter runs on. Evaluation recurses on the native stack
+/// and a single Blots call can take many native frames (one per level of expression nesting),
+/// so the default 8 MiB main-thread stack overflows long before the 1000-call depth limit is
+/// reached. The memory is only reserved, not committed, until it is actually used.
+const INTERPRETER_STACK_SIZE: usize = 1024 * 1024 * 1024;
+
+fn main() {
+    let interpreter = std::thread::Builder::new()
+        .name("blots".to_string())
+        .stack_size(INTERPRETER_STACK_SIZE)
+        .spawn(|| -> () { run() });
+
+    match interpreter {
+        // `run` always ends the process itself; joining only returns if it panicked
+        Ok(handle) => {
+            let _ = handle.join();
+            std::process::exit(101);
+        }
+        Err(e) => {
+            eprintln!("Error: could not start the interpreter thread: {}", e);
+            std::process::exit(1);
+        }
+    }
+}
+
+fn run() -> ! {
     // Handle shell completion generation
     if let Some(shell) = &ARGS.completions {
         let mut cmd = cli::Args::command();
